@@ -270,12 +270,23 @@ func (c *Client) Close() error {
 	return c.conn.Close()
 }
 
+// errNotActive is the result of a ping which was in progress when the client
+// left the active state.
+var errNotActive = errors.New("client is not active anymore")
+
 func (c *Client) setState(new util.ClientState) {
 	old := c.state.Set(new)
 	if new == old {
 		return
 	}
 	c.log.Debug("State changed to %q.", new)
+	if new != util.StateActive {
+		// A sleeping or disconnected client must not send (resend) keep-alive
+		// PINGREQs (a PINGREQ from a sleeping client means "I am awake").
+		if transaction, ok := c.transactions.GetByType(pkts.PINGREQ); ok {
+			transaction.Fail(errNotActive)
+		}
+	}
 	c.notifyStateChange(new)
 }
 
@@ -499,6 +510,12 @@ func (c *Client) ping(waitForGroup bool) error {
 	transaction := newPingTransaction(c)
 	ping := pkts1.NewPingreq(nil)
 	c.transactions.StoreByType(pkts.PINGREQ, transaction)
+	if !waitForGroup && c.state.Get() != util.StateActive {
+		// Keep-alive ping but the client has just left the active state
+		// (setState did not see this transaction yet).
+		transaction.Fail(errNotActive)
+		return errNotActive
+	}
 	transaction.Proceed(nil, ping)
 	if err := c.send(ping); err != nil {
 		transaction.Fail(err)
